@@ -8,7 +8,7 @@ import (
 
 // Every generated function has these parameters; impure operands are calls of the functions declared
 // in Preamble (in differential programs they log their name and return values from a script).
-const Params = "a, b, c int, u, v uint, p, q float64, s, t string, k, l bool, xs []int, bs []byte, ms myStr, mi myInts, mm myMap, ma myArr, pa *myArr, w *wr, mf, mg myF, mc, mc2 myC, fa [2]myF"
+const Params = "a, b, c int, u, v uint, p, q float64, s, t string, k, l bool, xs []int, bs []byte, ms myStr, mi myInts, mm myMap, ma myArr, pa *myArr, w *wr, mf, mg myF, mc, mc2 myC, fa [2]myF, vv val, it *iter"
 
 // Preamble for files that are only analysed (never run).
 const LintPreamble = `
@@ -50,6 +50,19 @@ type wr struct {
 
 func (w *wr) flush() { w.err = myErr{}; w.buf = []int{1} }
 func (w *wr) peek() int { return len(w.buf) }
+
+
+// a value type with the comparison methods the dupArg method rules name, and an iterator whose Next has effects
+type val struct{ n int }
+
+func (v val) Equal(o val) bool  { return v.n == o.n }
+func (v val) Equals(o val) bool { return v.n == o.n }
+func (v val) Compare(o val) int { return v.n - o.n }
+func (v val) Cmp(o val) int     { return v.n - o.n }
+
+type iter struct{ i int }
+
+func (it *iter) Next() val { it.i++; return val{it.i} }
 
 var gxs []int
 
@@ -539,4 +552,42 @@ func (g *G) Bool(d int) ex {
 // BoolExpr returns the source text of a generated boolean expression (nesting <= 4).
 func (g *G) BoolExpr() string {
 	return g.Bool(1 + g.pick(4)).s
+}
+
+// FmtCatalogue declares defined string types tS0..tS15 with every subset of the methods fmt consults
+// (bit 0 String, bit 1 Error, bit 2 Format, bit 3 GoString), and a struct type whose String method has a
+// pointer receiver (so that a nil pointer is a possible operand).  The file using it must import "fmt".
+func FmtCatalogue() string {
+	var b strings.Builder
+	for k := 0; k < 16; k++ {
+		fmt.Fprintf(&b, "type tS%d string\n", k)
+		if k&1 != 0 {
+			fmt.Fprintf(&b, "func (v tS%d) String() string { return \"S:\" + string(v) }\n", k)
+		}
+		if k&2 != 0 {
+			fmt.Fprintf(&b, "func (v tS%d) Error() string { return \"E:\" + string(v) }\n", k)
+		}
+		if k&4 != 0 {
+			fmt.Fprintf(&b, "func (v tS%d) Format(f fmt.State, c rune) { fmt.Fprint(f, \"F:\"+string(v)) }\n", k)
+		}
+		if k&8 != 0 {
+			fmt.Fprintf(&b, "func (v tS%d) GoString() string { return \"G:\" + string(v) }\n", k)
+		}
+	}
+	b.WriteString("type pS struct{ v string }\nfunc (p *pS) String() string { return \"P:\" + p.v }\n")
+	return b.String()
+}
+
+// FmtMethods names the method set of catalogue type tSk.
+func FmtMethods(k int) string {
+	var m []string
+	for i, n := range []string{"String", "Error", "Format", "GoString"} {
+		if k&(1<<i) != 0 {
+			m = append(m, n)
+		}
+	}
+	if len(m) == 0 {
+		return "no-methods"
+	}
+	return strings.Join(m, "+")
 }
